@@ -119,8 +119,9 @@ def run_job(job, ctx):
                 continue
             names = list(S)
             r.shuffle(names)
-            if names and r.random() < 0.3:
-                names.append(r.choice(names))      # repeated flag: set union
+            if names and r.random() < 0.4:
+                for _ in range(r.choice([1, 1, 2, 4])):
+                    names.insert(r.randrange(len(names) + 1), r.choice(list(S)))      # repeated flags: set union
             long = r.random() < 0.3
             argv = []
             for nme in names:
